@@ -41,7 +41,7 @@ STD = [s.value for s in HTTPStatus]
 
 @st.composite
 def cases(draw, tier):
-    prof = docs.profile(max_schemas=3, max_props=3, max_ops=3, max_depth=1, bodies=False,
+    prof = docs.profile(max_schemas=3, max_props=3, max_ops=3, max_depth=2, bodies=False, odd_media_pairs=True,
                         date_datetime_union=False, two_array_union=False, bool_intenum_union=False)
     ir = draw(docs.doc_ir(prof))
     comps = docs.comp_map(ir)
@@ -70,7 +70,11 @@ def cases(draw, tier):
                 if content is not None and content[1] is not None:
                     mt, s = content
                     try:
-                        if mt.startswith("text/"):
+                        if s.get("k") == "binary" and not mt == "application/octet-stream":
+                            # a binary schema under a text/JSON media type has no defined decoding: the response is only
+                            # *documented* (so that it is parsed next to the others), never served or judged
+                            continue
+                        elif mt.startswith("text/"):
                             body = {"text": draw(instances.plain_text)}
                         elif mt == "application/octet-stream":
                             body = {"bytes": draw(st.binary(max_size=24)).decode("latin-1")}
@@ -310,8 +314,8 @@ def _serve(ctx, pkg, mod, er, op, sv, comps, literal):
             ctx.violation("documented.none_is_none", site, repr(parsed)[:200])
     elif source == "json" and body is not None and "json" in body:
         sk = _resolve(schema, comps).get("k")
-        if sk == "any":
-            ctx.label("any_schema_not_asserted")
+        if sk in ("any", "binary"):
+            ctx.label("any_or_misfit_schema_not_asserted")
         else:
             value = body["json"]
             enc = jsonify(parsed)
